@@ -1822,7 +1822,11 @@ pub fn run(mut ctx: Ctx) -> ! {
             other => ctx.harness_error(format!("replay file names unknown engine {other:?}")),
         }
     } else {
-        run_documented_options(&mut ctx);
+        if std::env::var("VERIF_C18_CUSTOM_PROVIDER").is_ok() {
+            ctx.class("configuration: custom ICU data provider (leptos_i18n built without icu_compiled_data)");
+        } else {
+            run_documented_options(&mut ctx);
+        }
         let a = run_parse(&mut ctx);
         let b = run_macro(&mut ctx);
         let c = run_matrix(&mut ctx);
